@@ -1,7 +1,7 @@
 (* C11 -- code content is opaque and reproduced verbatim.  Statements only; proofs in proofs/CodeProofs.v;
    see DESIGN.md section 6 C11. *)
 From Coq Require Import String.
-From MdIt Require Import Prims Tables Escape Indent Tree Render Block Inline Core Dump Dispatch RenderProofs RangeProofs CodeProofs.
+From MdIt Require Import Prims Tables Escape Indent Tree Render Block Inline Core Dump Dispatch RenderProofs RangeProofs CodeProofs CodeSearchProofs LineProofs DocProofs.
 Local Open Scope string_scope.
 Local Open Scope list_scope.
 Local Open Scope N_scope.
@@ -79,6 +79,84 @@ Theorem C11_code_span_rendering : forall xhtml mk_ k m e t r,
   render xhtml (Node (KCodeInline mk_ k) m [] e [mk (KText t) r []]) = inr (replace_nul (bs "<code>" ++ escape_html t ++ bs "</code>")).
 Proof. exact render_code_inline. Qed.
 
+(* 4. THE SEARCH stops where the property says (CodeSearchProofs): whatever the payload,
+   - a fence of n markers indented by less than four columns, payload lines behind the same indentation in which every
+     run of the marker is shorter than n, then a line of at least n markers followed by blanks only: the fence rule
+     takes exactly these lines and its node holds the payload lines joined by LF (top level and list items: any block
+     indent the state carries);
+   - lines behind four columns of indentation, first and last one not blank, then blank lines and the end of the block
+     or a non-blank line indented by less than four: the code rule takes exactly the payload lines;
+   - a run of k markers, a payload in which every run of the marker is shorter than k and which neither starts nor ends
+     with it, a run of exactly k markers not followed by another one: the code-span rule consumes 2k + |payload| bytes
+     and its node holds span_text payload -- for every closer-cache state that does not (wrongly) deny a closer. *)
+Theorem C11_fence_search_verbatim : forall cfg st m n pre cpre params trail n' texts,
+  m = 96 \/ m = 126 -> (3 <= n)%nat -> forallb is_ws pre = true -> forallb is_ws cpre = true ->
+  b_blk st <= cols_from 0 pre < b_blk st + 4 -> b_blk st <= cols_from 0 cpre < b_blk st + 4 ->
+  match params with x :: _ => (x =? m) = false | [] => True end -> (m = 96 -> mem 96 params = false) ->
+  nth_error (b_lines st) (b_line st) = Some (mk_line (pre ++ repeatN m n ++ params)) ->
+  (forall i T, nth_error texts i = Some T ->
+     nth_error (b_lines st) (S (b_line st) + i) = Some (mk_line (pre ++ T)) /\ runs_lt m (N.of_nat n) T = true) ->
+  (n <= n')%nat -> all_sptab trail = true ->
+  nth_error (b_lines st) (S (b_line st) + length texts) = Some (mk_line (cpre ++ repeatN m n' ++ trail)) ->
+  (S (b_line st) + length texts < b_max st)%nat ->
+  exists rng, rule_fence cfg st =
+    inr (push_node (set_line st (S (S (b_line st) + length texts)))
+           (mk (KFence params m (N.of_nat n) (out_lines true texts) (bc_fence_prefix cfg)) rng []), true).
+Proof. exact fence_verbatim. Qed.
+
+Theorem C11_indented_search_verbatim : forall st pre texts tailblank,
+  forallb is_ws pre = true -> cols_from 0 pre = 4 + b_blk st ->
+  (forall i T, nth_error texts i = Some T -> nth_error (b_lines st) (b_line st + i) = Some (mk_line (pre ++ T))) ->
+  (exists T, nth_error texts 0 = Some T /\ blank T = false) ->
+  (exists T, nth_error texts (length texts - 1) = Some T /\ blank T = false) ->
+  (forall j, (j < tailblank)%nat -> is_empty st (b_line st + length texts + j) = true) ->
+  (b_line st + length texts + tailblank <= b_max st)%nat ->
+  ((b_line st + length texts + tailblank = b_max st)%nat \/
+   exists text f ind, nth_error (b_lines st) (b_line st + length texts + tailblank) = Some (LRec text f ind) /\
+                      f < len text /\ (ind - Z.of_N (b_blk st) < 4)%Z) ->
+  exists rng, rule_code st =
+    inr (push_node (set_line st (b_line st + length texts)) (mk (KCodeBlock (out_lines false texts ++ [10])) rng []), true).
+Proof. exact code_block_verbatim. Qed.
+
+Theorem C11_span_search_verbatim : forall st m k before T tail after,
+  m < 128 -> (1 <= k)%nat ->
+  i_src st = before ++ (repeatN m k ++ T ++ repeatN m k ++ tail) ++ after ->
+  i_pos st = len before -> i_max st = len before + len (repeatN m k ++ T ++ repeatN m k ++ tail) ->
+  starts_clean after ->
+  match T with x :: _ => (x =? m) = false | [] => False end -> last_not m T -> iruns_lt m (N.of_nat k) T = true ->
+  starts_clean T /\ no_cont_after m T = true ->
+  match tail with x :: _ => (x =? m) = false | [] => True end ->
+  match rev (trailing_text_get st) with x :: _ => (x =? m) = false | [] => True end ->
+  (fst (get_bt st m) && (nth (N.to_nat (N.of_nat k)) (snd (get_bt st m)) 0 <=? i_pos st)) = false ->
+  (exists p0 t, i_map st = (0, p0) :: t) ->
+  exists mv rng rng2, rule_code_pair st m false =
+    inr (ipush (set_bt st m (fst (get_bt st m), mv)) (mk (KCodeInline m (N.of_nat k)) rng [mk (KText (span_text T)) rng2 []]),
+         Some (N.of_nat k + len T + N.of_nat k)).
+Proof. exact code_span_verbatim. Qed.
+
+(* 5. END TO END for the default CommonMark parser (DocProofs): a source whose lines are an opening fence (no info
+   string), payload lines and a closing fence as above renders as <pre><code>ESCAPED PAYLOAD</code></pre> -- through
+   line splitting, the block loop (no earlier rule takes the opening line), the inline pass, the clean-up pass and the
+   serializer; and the lines of an LF-terminated text are its lines. *)
+Theorem C11_fence_document : forall m n pre cpre trail n' texts src,
+  m = 96 \/ m = 126 -> (3 <= n)%nat -> forallb is_ws pre = true -> forallb is_ws cpre = true ->
+  cols_from 0 pre < 4 -> cols_from 0 cpre < 4 ->
+  (forall T, In T texts -> runs_lt m (N.of_nat n) T = true) -> (n <= n')%nat -> all_sptab trail = true ->
+  texts_of src = (pre ++ repeatN m n ++ []) :: map (fun T => pre ++ T) texts ++ [cpre ++ repeatN m n' ++ trail] ->
+  forall xhtml, html_of_parse (default_fuel md_cmark) md_cmark xhtml src =
+  inr (replace_nul (bs "<pre><code>" ++ escape_html (out_lines true texts) ++ bs "</code></pre>" ++ [10])).
+Proof. exact fence_document_html. Qed.
+
+Theorem C11_lines_of_text : forall ls, ls <> [] -> forallb eol_free ls = true -> texts_of (lf_lines ls) = ls.
+Proof. exact texts_of_lf_lines. Qed.
+
+(* non-vacuity of the search theorems: the hypotheses hold for a concrete state / document with markup in the payload *)
+Example C11_fence_document_nonvacuous :
+  let texts := [bs "*a* ``` &amp; \*"; bs ""; bs "  ~~~~"] in
+  texts_of (lf_lines (bs "````" :: texts ++ [bs "`````  "])) = (bs "" ++ repeatN 96 4 ++ []) :: map (fun T => bs "" ++ T) texts ++ [bs "" ++ repeatN 96 5 ++ bs "  "]
+  /\ forallb (runs_lt 96 4) texts = true.
+Proof. vm_compute. split; reflexivity. Qed.
+
 (* non-vacuity: a tab after two spaces of indentation inside an indented code line survives the 4-column cut *)
 Example C11_nonvacuous :
   let l := mk_line (bs "    " ++ [32; 9; 42]) in
@@ -93,3 +171,8 @@ Print Assumptions C11_code_span_content_is_the_slice.
 Print Assumptions C11_code_block_rendering.
 Print Assumptions C11_fence_rendering.
 Print Assumptions C11_code_span_rendering.
+Print Assumptions C11_fence_search_verbatim.
+Print Assumptions C11_indented_search_verbatim.
+Print Assumptions C11_span_search_verbatim.
+Print Assumptions C11_fence_document.
+Print Assumptions C11_lines_of_text.
